@@ -302,6 +302,23 @@ fn gen_c03(ch: &mut Choices) -> Plan {
     // is routed to the resource t/{id}; client roles: ClientRouter)
     plan.cfg.use_router = ch.chance(1, 3);
 
+    if role.is_server() {
+        // a Maximum QoS below 2, configured or (MQTT 5) lowered for this session by the handshake's CONNACK:
+        // a publish above it is not an accepted one - no handler, no acknowledgement
+        if ch.chance(1, 5) {
+            match ch.choose(if ver == Ver::V5 { 4 } else { 2 }) {
+                0 => plan.cfg.max_qos = 1,
+                1 => plan.cfg.max_qos = 0,
+                2 => plan.cfg.hs_max_qos = Some(1),
+                _ => plan.cfg.hs_max_qos = Some(0),
+            }
+        }
+        // the option that lets publishes be handled after the connection has been closed must not change
+        // anything while it is open
+        if ch.chance(1, 4) {
+            plan.cfg.handle_qos_after_disconnect = Some(ch.choose(3) as u8);
+        }
+    }
     // KNOWN FINDING (C03/wrong-ack-type/C?/q2-PUBACK): the client role answers an inbound QoS 2
     // PUBLISH with PUBACK. Half of the client-role runs avoid inbound QoS 2 so that the finding
     // does not blind the rest of the family.
@@ -510,7 +527,8 @@ fn gen_outbound(kind: OutKind, ch: &mut Choices) -> Plan {
             }
             match ch.weighted(&w) {
                 0 => ops.push(AppOp::PubQ0 { len }),
-                1 => ops.push(AppOp::PubQ1 { len, pid: None }),
+                // (one in six through the non-blocking API: readiness check, send, completion by callback)
+                1 => ops.push(if ch.chance(1, 6) { AppOp::PubQ1Nb { len, pid: None } } else { AppOp::PubQ1 { len, pid: None } }),
                 2 => {
                     // (caller-chosen identifiers collide now and then: the refused send must not touch the
                     // exchange that owns the identifier)
@@ -613,6 +631,28 @@ fn gen_outbound(kind: OutKind, ch: &mut Choices) -> Plan {
             ops.push(AppOp::PubQ1 { len: 2, pid: Some(1 + ch.choose(3) as u16) });
         }
         plan.senders.push(ops);
+    }
+    if matches!(kind, OutKind::C06 | OutKind::C08) && ch.chance(1, 4) {
+        // motif: non-blocking sends with caller-chosen ids, some of which fail locally (over the peer's
+        // Maximum Packet Size, or while a streamed publish is owed payload), followed by sends that use the
+        // same ids again: a send that failed locally must leave nothing behind
+        let mut ops = Vec::new();
+        for _ in 0..(2 + ch.choose(3)) {
+            let len = *ch.pick(&[2u32, 30, 45]);
+            let pid = Some(20 + ch.choose(2) as u16);
+            ops.push(if ch.chance(3, 4) { AppOp::PubQ1Nb { len, pid } } else { AppOp::PubQ1 { len, pid } });
+        }
+        plan.senders.push(ops);
+        if v5 && ch.chance(1, 2) && !plan.tags.iter().any(|t| t.starts_with("peer-max-packet")) {
+            match role {
+                Role::S5 => plan.peer.connect.props.push((39, PropVal::U32(32))),
+                _ => plan.peer.connack_props.push((39, PropVal::U32(32))),
+            }
+            plan.tags.push("peer-max-packet:32".into());
+        }
+        if ch.chance(1, 2) {
+            plan.senders.push(vec![AppOp::StreamQ1 { size: 8, chunks: vec![4, 4], pid: None }]);
+        }
     }
     plan.peer.auto_ack = true;
     if v5 && ch.chance(1, 2) {
@@ -833,6 +873,23 @@ fn gen_c11(ch: &mut Choices) -> Plan {
                 plan.peer.script.push(step(Pkt::PubRel(Ack::ok(id)), ver, pre));
             }
         }
+    }
+    if role.is_server() && ch.chance(1, 5) {
+        // motif: publishes that are still handled after the connection has been closed (the option for
+        // it is on). The peer ends its stream right behind a last PUBLISH that re-uses the identifier of an
+        // earlier one: the bytes and the end of the stream reach the endpoint together, the identifier
+        // rules hold for what is dispatched after the close as well
+        let q = 1 + ch.choose(2) as u8;
+        plan.cfg.handle_qos_after_disconnect = Some(q);
+        let pid = 1 + ch.choose(3) as u16;
+        let qos = 1 + ch.choose(q as u32) as u8;
+        let mut p = mk_publish(ver, ch, 40, qos, Some(pid), 2);
+        p.dup = false;
+        let mut st = step(Pkt::Publish(p), ver, Pre::Connected);
+        st.then_close = Some(false);
+        plan.peer.script.push(st);
+        plan.p_hold = *ch.pick(&[0u32, 400, 800]);
+        plan.tags.push("after-disconnect".into());
     }
     plan.ending = Ending::Settle;
     plan
